@@ -195,7 +195,7 @@ def gen_ops(rng, cfg, nops, invalid_rate=0.0, blocks=True, close=True):
                 elif kind == "dorder" and nb > 1:
                     D[1] = D[0]
                 elif kind == "gorder" and nb > 1:
-                    G[1] = G[0] - rng.choice([0, 1])
+                    G[1] = max(0, G[0] - rng.choice([0, 1]))
                 elif kind == "dbeyond":
                     D = D[:-1] + [total + rng.choice([0, 1])] if nb > 1 else [0, total]
                     G = G if len(G) == len(D) else G + [G[-1] + total + 5]
@@ -483,3 +483,63 @@ def detect_gaprule(res):
     _gaprule = 0 if w.get_total_gap_samples() == 100 else 1
     w.close()
     return _gaprule
+
+
+# ------------------------------------------------------------------------------- C API
+
+_capi = None
+
+
+def capi():
+    """ctypes handle on the C writer compiled from /repo together with harness/cdriver/capi_shim.c"""
+    global _capi
+    if _capi is None:
+        import ctypes
+        so = common.build_cshim("capi_shim", ["capi_shim.c"])
+        lib = ctypes.CDLL(so)
+        u64, vp, ci = ctypes.c_uint64, ctypes.c_void_p, ctypes.c_int
+        P64 = ctypes.POINTER(u64)
+        lib.shim_create.restype = vp
+        lib.shim_create.argtypes = [ctypes.c_char_p, u64, u64, u64, u64, u64, ci, ci, ci]
+        lib.shim_global_index.restype = u64
+        lib.shim_global_index.argtypes = [vp]
+        lib.shim_has_failure.argtypes = [vp]
+        lib.digital_rf_write_blocks_hdf5.argtypes = [vp, P64, P64, u64, vp, u64]
+        lib.digital_rf_write_hdf5.argtypes = [vp, u64, vp, u64]
+        lib.digital_rf_close_write_hdf5.argtypes = [vp]
+        lib.shim_index.argtypes = [u64, u64, ci, ci, u64, u64, u64, P64, P64, u64, u64, u64, ci, P64, P64]
+        lib.shim_global_sample.restype = u64
+        lib.shim_global_sample.argtypes = [u64, P64, P64, u64]
+        _capi = lib
+    return _capi
+
+
+def run_capi(cfg, ops, chdir, hook=None):
+    """ops ("capi", len, tag0, G, D) / ("c",) on the C API (int32, one subchannel);
+    reports [rc, 0, 0, 0, 0, global_index, has_failure]"""
+    import ctypes
+    lib = capi()
+    os.makedirs(chdir, exist_ok=True)
+    obj = lib.shim_create(chdir.encode(), cfg.sc, cfg.fc, cfg.start, cfg.n, cfg.d, cfg.comp, int(cfg.cksum), int(cfg.cont))
+    if not obj:
+        raise common.Broken("digital_rf_create_write_hdf5 returned NULL")
+    reports = []
+    closed = False
+    for i, op in enumerate(ops):
+        before = hook("before", i, op, None) if hook else None
+        if op[0] == "capi":
+            ln, tag0, G, D = op[1], op[2], op[3], op[4]
+            data = np.arange(tag0, tag0 + max(ln, 1), dtype=np.int32)
+            Ga = (ctypes.c_uint64 * max(1, len(G)))(*G)
+            Da = (ctypes.c_uint64 * max(1, len(D)))(*D)
+            rc = lib.digital_rf_write_blocks_hdf5(obj, Ga, Da, len(G), data.ctypes.data_as(ctypes.c_void_p), ln)
+            reports.append([rc, 0, 0, 0, 0, lib.shim_global_index(obj), lib.shim_has_failure(obj)])
+        elif op[0] == "c":
+            lib.digital_rf_close_write_hdf5(obj)
+            closed = True
+            reports.append([0, 0, 0, 0, 0, None, None])
+        if hook:
+            hook("after", i, op, None, before, reports[-1])
+    if not closed:
+        lib.digital_rf_close_write_hdf5(obj)
+    return reports
